@@ -230,7 +230,22 @@ type obsCollector struct {
 }
 
 func dryObs(tx *gorm.DB) string {
-	return tx.Statement.SQL.String() + " | " + fmtVars(tx.Statement.Vars) + errStr(tx.Error)
+	return tx.Statement.SQL.String() + " | " + fmtVars(tx.Statement.Vars) + settingsObs(tx) + errStr(tx.Error)
+}
+
+// settingsObs: what Set/InstanceSet left for this statement (nothing else renders Statement.Settings).
+func settingsObs(tx *gorm.DB) string {
+	if tx == nil || tx.Statement == nil {
+		return ""
+	}
+	out := ""
+	if v, ok := tx.Get(settingKey); ok {
+		out += fmt.Sprintf(" set=%v", v)
+	}
+	if v, ok := tx.InstanceGet(settingKey); ok {
+		out += fmt.Sprintf(" iset=%v", v)
+	}
+	return out
 }
 
 func (o *obsCollector) begin() {
@@ -266,6 +281,7 @@ func (o *obsCollector) observe(tx *gorm.DB) {
 		}
 		sb.WriteString("; ")
 	}
+	sb.WriteString(settingsObs(tx))
 	if tx.Error != nil {
 		// RowsAffected of a failed call is whatever the chain object carried before
 		sb.WriteString(errStr(tx.Error))
